@@ -5,7 +5,7 @@ from mc.engine import Sub, HSystem, hsub, canon
 
 def pts_perm(tier):
     pts = []
-    top = 6 if tier == 'thorough' else 4
+    top = 6 if tier == 'thorough' else 5
     for n in range(0, top + 1):
         for l in itertools.product((0, 1, 2), repeat=n):
             pts.append(tuple(l))
@@ -119,7 +119,7 @@ def judge_subset(ctx, key, items, s, res, minimal):
 
 def pts_subset(tier):
     pts = []
-    for n in range(0, (6 if tier == 'thorough' else 4) + 1):
+    for n in range(0, (6 if tier == 'thorough' else 5) + 1):
         for ws in itertools.product(WEIGHTS, repeat=n):
             pts.append(tuple(ws))
     return pts
@@ -185,12 +185,12 @@ def systems(tier):
 def subchecks():
     return [
         Sub('permutk', pts_perm, run_perm, engine='D',
-            bound='every list over {0,1,2} of length 0..4 (thorough 0..6) and range(n), reversed range(n) for n<=6 (8), every k<=n: multiset of yields, list restored after exhaustion'),
+            bound='every list over {0,1,2} of length 0..5 (thorough 0..6) and range(n), reversed range(n) for n<=6 (8), every k<=n: multiset of yields, list restored after exhaustion'),
         Sub('nextperm', pts_next, run_next, engine='D',
             bound='every permutation of range(n), n=1..5 (6), and every arrangement of every multiset over {0,1,2} of size 1..5 (6): successor with wrap-around'),
         Sub('combink', pts_comb, run_comb, engine='D', bound='n=1..6 (7), every 1<=p<=n, three element kinds, vs itertools.combinations; repeated enumeration'),
         Sub('subset-sum', pts_subset, run_subset, engine='D',
-            bound='every item list of length 0..4 (thorough 0..6) with weights in {1,2,3,5} x every target 0..sum+1 (exactsum: 1..sum+1), each on a freshly loaded module'),
+            bound='every item list of length 0..5 (thorough 0..6) with weights in {1,2,3,5} x every target 0..sum+1 (exactsum: 1..sum+1), each on a freshly loaded module'),
         hsub('call-histories', systems, lambda tier: 3 if tier == 'quick' else 4,
              bound='8 exactsum/dynprog calls, all histories to depth 3 (thorough 4) on one loaded module, deduplicated by the functions\' default-argument state'),
     ]
